@@ -1,2 +1,65 @@
-From TV Require Import Base.
-Example C18_placeholder : True. Proof. exact I. Qed.
+(* C18 -- adapter messages reach exactly the matching command; interrupt iff declared.
+   Decoding and regex matching are data (what each command makes of the message, computed by
+   Python's codecs / re); the theorems are about the dispatch, interrupt and reply logic.
+   Property theorems only. *)
+From TV Require Import Base Model.Command Proofs.CommandP.
+
+(* the handler that runs is that of the first command (in member order) whose pattern matches
+   the whole message after that command's decoding, with the captured groups; commands for
+   which decoding fails or the pattern does not match are passed over *)
+Theorem C18_dispatch : forall m i args,
+  handle m = HCommand i args <->
+  nth_error m i = Some (Match args) /\
+  forall j, (j < i)%nat -> forall p, nth_error m j = Some p -> is_match p = false.
+Proof. exact handle_dispatch. Qed.
+
+(* if no command matches -- including when the bytes cannot be decoded for some command -- no
+   handler runs: the result is the unknown-command reply; and handle never raises *)
+Theorem C18_unknown : forall m, handle m = HUnknown <-> forall p, In p m -> is_match p = false.
+Proof. exact handle_unknown. Qed.
+
+Theorem C18_total : forall m, handle m <> HRaise.
+Proof. exact handle_never_raises. Qed.
+
+(* exactly one handler invocation, followed by the interrupt iff the matched command is
+   interrupting; no handler and no interrupt for an unknown message *)
+Theorem C18_interrupt_after : forall cmds m,
+  match handle m with
+  | HCommand i args =>
+      forall c, nth_error cmds i = Some c ->
+      fst (fst (handle_message cmds m)) = EvHandler i args :: (if cmd_interrupt c then [EvInterrupt] else [])
+  | HUnknown => fst (fst (handle_message cmds m)) = [] /\ snd (handle_message cmds m) = true
+  | HRaise => False
+  end.
+Proof.
+  intros cmds m. unfold handle_message. destruct (handle m) as [|i args|] eqn:E.
+  - split; reflexivity.
+  - intros c Hc. rewrite Hc. reflexivity.
+  - exact (handle_never_raises m E).
+Qed.
+
+(* every reply other than the empty marker is written once, in order *)
+Theorem C18_replies : forall replies,
+  stream replies false = map EvWrite (flat_map (fun r => match r with Some x => [x] | None => [] end) replies).
+Proof. exact stream_order. Qed.
+
+(* a whole connection: the on_connect replies, then, chunk by chunk, the handler's effect, the
+   interrupt, the replies -- by definition of [connection]; stated for reference *)
+Theorem C18_connection : forall cmds onc chunks,
+  connection cmds onc chunks =
+  stream onc false ++
+  flat_map (fun m => fst (fst (handle_message cmds m)) ++ stream (snd (fst (handle_message cmds m))) (snd (handle_message cmds m))) chunks.
+Proof.
+  intros. unfold connection. f_equal. apply flat_map_ext. intros m. destruct (handle_message cmds m) as [[e r] u]. reflexivity.
+Qed.
+
+(* what the pinned tree did is refuted: a text command placed before the others made handle
+   raise on undecodable bytes instead of answering "unknown command" *)
+Theorem C18_pinned_refuted : exists m, handle_pinned_from 0 m = HRaise /\ handle m = HUnknown.
+Proof. exact pinned_refuted. Qed.
+
+Example C18_example :
+  connection [{| cmd_interrupt := true; cmd_replies := [Some 1%Z; None; Some 2%Z] |}; {| cmd_interrupt := false; cmd_replies := [Some 3%Z] |}]
+             [Some 9%Z] [[NoMatch; Match [7%Z]]; [DecodeFails; NoMatch]; [Match []; Match []]]
+  = [EvWrite 9%Z; EvHandler 1 [7%Z]; EvWrite 3%Z; EvWriteUnknown; EvHandler 0 []; EvInterrupt; EvWrite 1%Z; EvWrite 2%Z].
+Proof. vm_compute. reflexivity. Qed.
